@@ -2,7 +2,8 @@
 Tie A (C16): the word loop of `ufw_crc16_arc_u16` (SYSTEM_ENDIANNESS_LITTLE branch, the one clang sees with the
 shipped configuration) is the model's fold of `wordStepLE`.
 -/
-import Ufw.Tie.CrcLoops.Arc
+import Ufw.Tie.CrcLoops.Octet
+import Ufw.Model.Crc
 namespace Ufw.Tie.CrcLoops
 open Ufw.Tie.CPre
 
